@@ -297,13 +297,17 @@ def still_violates(mod, case, monitor):
     return False
 
 
-def shrink_list(mod, case, monitor, field="ops", budget=400):
+def shrink_list(mod, case, monitor, field="ops", budget=400, seconds=20.0):
     """Delta-debugging over case[field] (a list): drop chunks while the same monitor
-    still fires."""
+    still fires.  Bounded by a number of re-executions AND by wall-clock (shrinking only makes
+    the replay smaller; it never decides anything)."""
+    import time as _time
+
     items = list(case.get(field, []))
     n = 2
     tries = 0
-    while len(items) >= 1 and tries < budget:
+    t_end = _time.time() + seconds
+    while len(items) >= 1 and tries < budget and _time.time() < t_end:
         chunk = max(1, len(items) // n)
         reduced = False
         for start in range(0, len(items), chunk):
@@ -316,7 +320,7 @@ def shrink_list(mod, case, monitor, field="ops", budget=400):
                 n = max(n - 1, 2)
                 reduced = True
                 break
-            if tries >= budget:
+            if tries >= budget or _time.time() >= t_end:
                 break
         if not reduced:
             if chunk == 1:
